@@ -165,11 +165,15 @@ func (fm *Server) Status(ctx context.Context, _ *pb.StatusRequest) (*pb.StatusRe
 	}, nil
 }
 
-func (fm *Server) Init(ctx context.Context, req *pb.InitRequest) (*pb.Response, error) {
+func (fm *Server) Init(ctx context.Context, req *pb.InitRequest) (_ *pb.Response, retErr error) {
 	fm.lock.Lock()
 	fm.status = FuseManagerWaitInit
 	defer func() {
-		fm.status = FuseManagerReady
+		// Only a completed initialisation opens the readiness gate: after a
+		// failure curFs is nil or was built from an older config than fm.config.
+		if retErr == nil {
+			fm.status = FuseManagerReady
+		}
 		fm.lock.Unlock()
 	}()
 
